@@ -118,7 +118,7 @@ def complete(d, tree, cfg):
     return True
 
 
-def prune(keep=6):
+def prune(keep=12):
     base = os.path.join(CACHE, "facts")
     ds = [os.path.join(base, x) for x in os.listdir(base)] if os.path.isdir(base) else []
     ds = [d for d in ds if os.path.isdir(d)]
